@@ -967,8 +967,58 @@ def judge_moved(case):
   return out, tuple(sorted(case["lines"]))
 
 
+# ---------------------------------------------------------------------------
+# ordered groups that walk over an edge which is not a dovetail: no GFA1
+# counterpart (dropped from the graph conversion, refused line by line)
+
+def cases_nondovetail_groups():
+  segs = [T(["S", "a", "10", "*"]), T(["S", "b", "4", "*"]),
+          T(["S", "c", "10", "*"])]
+  dov = T(["E", "d", "a+", "c+", "8", "10$", "0", "2", "2M"])
+  for kind, e in (("containment", T(["E", "k", "a+", "b+", "2", "6", "0", "4$", "4M"])),
+                  ("containment-rev", T(["E", "k", "b-", "a-", "0", "4$", "4", "8", "4M"])),
+                  ("internal", T(["E", "k", "a+", "b+", "2", "5", "1", "3", "2M"]))):
+    for items in ("a+ b+", "a+ k+ b+", "c- a- b-" if kind == "containment-rev"
+                  else "b- a- c-", "k+"):
+      yield {"dir": "2to1", "family": "Onondov",
+             "cell": "{} O p {}".format(kind, items), "cigar": "-",
+             "lines": segs + [e, dov, T(["O", "p", items]),
+                              T(["O", "q", "a+ c+"])], "meta": {}}
+
+
+def judge_nondovetail(case):
+  out = []
+
+  def chk(clause, field, exp, obs):
+    if exp != obs:
+      out.append((clause, field, exp, obs))
+  g = gfapy.Gfa(case["lines"], version="gfa2", vlevel=1)
+  cp = _try(lambda: g.line("p").captured_path)
+  if raised(cp):
+    return out, None        # not a valid walk: C17's business
+  for how in ("_s", ""):
+    r = _try(lambda: getattr(g, "to_gfa1" + how)())
+    if raised(r):
+      chk("conversion-raises", "to_gfa1{}()".format(how), None, r)
+      continue
+    text = r if how == "_s" else str(r)
+    ls = [x for x in text.split("\n") if x]
+    chk("mistranslated", "to_gfa1{}(): path lines written".format(how),
+        ["q"], sorted(x.split("\t")[1] for x in ls if x[0] == "P"))
+    chk("mistranslated", "to_gfa1{}(): placeholder lines written".format(how),
+        [], [x for x in ls if "GFAPY_virtual_line" in x])
+    v = _try(lambda: gfapy.Gfa(text, version="gfa1", vlevel=3).validate())
+    chk("invalid-output", "to_gfa1{}() parsed with vlevel=3".format(how),
+        None, v)
+  r = _try(lambda: g.line("p").to_gfa1())
+  chk("mistranslated", "O p .to_gfa1() is refused", True, raised(r))
+  return out, tuple(sorted(case["lines"]))
+
+
 def judge(case):
   fn = judge_1to2 if case["dir"] == "1to2" else judge_2to1
+  if case["family"] == "Onondov":
+    fn = judge_nondovetail
   if case["family"] == "moved":
     fn = judge_moved
   if case["family"] == "H":
@@ -1105,7 +1155,8 @@ def run(ctx):
       list(cases_1to2_paths(ctx.quick)) + \
       list(cases_2to1_edges(ctx.quick)) + list(cases_2to1_other()) + \
       list(cases_2to1_paths()) + list(cases_headers()) + \
-      list(cases_linelevel(ctx.quick)) + list(cases_moved())
+      list(cases_linelevel(ctx.quick)) + list(cases_moved()) + \
+      list(cases_nondovetail_groups())
   fam = {}
   for c in cases:
     k = c["dir"] + ":" + c["family"]
